@@ -66,7 +66,7 @@ CHECKS = {
             "plaintext only; error kinds BrokenPipe/ConnectionReset/Other (never Interrupted/WouldBlock, which write_all legitimately retries)"),
     "C20": ("4/C20", "panic hook + catch_unwind + operation budgets over exhaustive short inputs, grammar-aware mutations and random bytes; ASan + Miri passes",
             "All command payloads of length <=3 over a 14-symbol alphabet (with and without a prepared statement), all raw streams of <=4 bytes over a 6-symbol alphabet instead of the handshake, ~8500 grammar-aware mutations x 2 read schedules (truncation/extension at every byte, every command byte, every type code x flag, count/bitmap/type-table/value inconsistencies, every sequence id, zero-length packets, both handshake layouts cut at every byte, SSLRequest followed by garbage/truncated ClientHello/plaintext), out-of-order fragment ids, random bytes; a panic in msql-srv, a wedge or ill-framed output is a violation.",
-            "'never loops forever' is decided as bounded progress (operation budget); known panic sites are listed in known_findings.json by exact signature"),
+            "'never loops forever' is decided as bounded progress (operation budget); known panic sites would be listed in known_findings.json by exact signature (none is left: all were repaired)"),
 }
 
 MEGA = {"C01", "C02", "C03", "C04", "C05", "C08", "C09", "C10", "C12", "C13", "C14", "C16", "C17", "C18", "C19"}
